@@ -103,6 +103,10 @@ def job(shard, nshards, seed, tier, exes, plan):
                 sh.violation("C18/release/not-exactly-one-freeing-put", "concurrent release by %s holders: rounds with >1 freeing put %s, with none %s, callback not once %s (%s)" % (res["threads"], res["multi_freed"], res["none_freed"], res["callback_not_once"], variant), dict(rep0, result=res))
             sh.cmax("max_distinct_winner_threads", int(res["distinct_winners"]))
             sh.count("release_rounds", int(res["rounds"]))
+        elif sc == "fmtglobal":
+            if int(res["mismatches"]):
+                sh.violation("C18/disjoint/own-format-lost-when-the-global-one-changed", "threads that had given themselves a double format (equal to the process-wide one at that moment) printed %s wrong results after another thread changed the process-wide format" % res["mismatches"], dict(rep0, result=res))
+            sh.count("fmtglobal_runs")
         elif sc == "disjoint":
             if int(res["mismatches"]):
                 sh.violation("C18/disjoint/interference", "threads working on disjoint trees saw %s wrong results" % res["mismatches"], dict(rep0, result=res))
@@ -156,6 +160,11 @@ def run(tier, seed):
         # container mode (4th argument 2): all holders but one keep their reference inside an array / object of their own and release the container
         plan.append(("thr", ["release", [2, 3, 4, 8][i % 4], 20000 if q else 200000, 2], None, ""))
     plan += [("tsan", ["release", 2, 3000 if q else 40000, 2], None, ""), ("tsan_ndebug", ["release", 4, 2000 if q else 30000, 2], None, "")]
+    # slot mode (4th argument 3): the holders overwrite the element / replace or delete the member that holds their reference, then drop the container
+    plan += [("tsan", ["release", 3, 3000 if q else 40000, 3], None, ""), ("tsan_ndebug", ["release", 5, 2000 if q else 30000, 3], None, "")]
+    for i in range(8 if q else 40):
+        plan.append(("thr", ["release", [2, 3, 4, 8][i % 4], 20000 if q else 200000, 3], None, ""))
+    plan += [("tsan", ["fmtglobal", 4, 1], None, ""), ("thr", ["fmtglobal", 8, 1], None, ""), ("thr", ["fmtglobal", 3, 1], None, "")]
     plan += [("tsan", ["mutate", 4, 20000 if q else 200000], None, ""), ("tsan_ndebug", ["mutate", 3, 20000 if q else 200000], None, ""), ("thr", ["mutate", 8, 200000 if q else 2000000], None, "")]
     plan.append(("thr", ["readers", 12, 300000], None, ""))
     for i in range(300 if q else 20000):
